@@ -141,3 +141,32 @@ def run_step(case):
 
 
 HANDLERS = {'step': run_step}
+
+
+def run_method(case):
+    """call a method of the processor (path like 'condition_passed' or 'registers.it_advance') on a built
+    state; returns [0, result...] + machine encoding, or the exception encoding + machine encoding"""
+    import implrun
+    arm = build(case['state'])
+    obj = arm
+    parts = case['method'].split('.')
+    for p in parts[:-1]:
+        obj = getattr(obj, p)
+    fn = getattr(obj, parts[-1])
+    try:
+        with contextlib.redirect_stdout(io.StringIO()):
+            r = fn(*case.get('args', []))
+    except Exception as e:  # noqa
+        return implrun.exn_enc(e) + ([] if case.get('_only_result') else dump(arm))
+    try:
+        enc = implrun.enc(r, case['rt'])
+    except implrun.OffDomain:
+        return [9, 9]
+    if case.get('_only_result'):
+        return [0] + enc
+    if case.get('_probe') == 'cpsr':
+        return [0, int(arm.registers.cpsr.value)]
+    return [0] + enc + dump(arm)
+
+
+HANDLERS['method'] = run_method
